@@ -16,6 +16,8 @@ mod stamp;
 mod traits;
 mod variants;
 mod version;
+#[cfg(feature = "verif")]
+pub mod verif;
 
 use variants::*;
 
